@@ -16,4 +16,5 @@ PROPERTY UpExactlyOnce
 PROPERTY DownExactlyOnce
 PROPERTY PortStatusOrder
 PROPERTY SendReaches
+PROPERTY InHandlerView
 CHECK_DEADLOCK FALSE
